@@ -127,7 +127,7 @@ def run(pid, tier):
     thorough = tier == "thorough"
     seed = vlib.seed()
     exe = vlib.build_harness("pool", POOL_SRCS, "plain")
-    work = os.path.join(vlib.CACHE, "work", "C10")
+    work = os.path.join(vlib.WORK, "C10")
     shutil.rmtree(work, ignore_errors=True)
     os.makedirs(work)
 
@@ -284,6 +284,20 @@ def run(pid, tier):
                            "source_hash": vlib.src_hash()}, open(os.path.join(d, "replay.json"), "w"), indent=1)
                 V.reject({"client": cl, "nw": nw, "nt": nt, "event": b["e"], "mode": "stress"},
                          "L1 rejects free-running execution: %s" % b, d)
+    # several pools alive at once (client P4): the pool under test must behave like P1 whatever happens to the others
+    for (nw, nt) in [(1, 2), (2, 6), (4, 40)] + ([(3, 9), (8, 100)] if thorough else []):
+        tr = os.path.join(work, "stress_P4_%d_%d.ndjson" % (nw, nt))
+        subprocess.run([exe, "stress", str(nw), str(nt), "P4", str(reps), tr], capture_output=True, text=True, timeout=3000)
+        h1, bad1 = validate("L1", tr, nw, nt, "P1", tag="s4")
+        stress_runs += h1["runs"]
+        for b in bad1[:2]:
+            d = vlib.replay_dir(pid, "stress_P4_%d_%d_run%d" % (nw, nt, b["run"]))
+            lines, _ = split_runs(tr)[b["run"]]
+            open(os.path.join(d, "trace.ndjson"), "w").writelines(lines)
+            json.dump({"nw": nw, "nt": nt, "client": "P4", "mode": "stress", "rejected_event": b,
+                       "source_hash": vlib.src_hash()}, open(os.path.join(d, "replay.json"), "w"), indent=1)
+            V.reject({"client": "P4", "nw": nw, "nt": nt, "event": b["e"], "mode": "stress"},
+                     "L1 rejects free-running execution with two other pools alive: %s" % b, d)
     executions += stress_runs
     shutil.rmtree(work, ignore_errors=True)
 
@@ -324,7 +338,7 @@ def replay(pid, path):
         subprocess.run([exe, "stress", str(nw), str(nt), cl, "50", tr], capture_output=True, text=True)
     else:
         subprocess.run([exe, "replay", str(nw), str(nt), cl, info["schedule"], tr], capture_output=True, text=True)
-    h1, bad1 = validate("L1", tr, nw, nt, cl, tag="rp")
+    h1, bad1 = validate("L1", tr, nw, nt, "P1" if cl == "P4" else cl, tag="rp")
     if h1["rejected"]:
         print("VIOLATION property=%s replay=%s" % (pid, path))
         print("  L1 rejects:", bad1[0])
